@@ -495,10 +495,49 @@ pub fn stream_id_version<'a>() -> impl Parser<FrameStream<'a>, Output = (StreamI
         .expected("stream id version value")
 }
 
+/// Words that introduce a clause in some command. They are never read as a stream id
+/// or an event name, so that a clause can not be swallowed by the positional arguments
+/// in front of it (`ESUB s FROM 5`) or reinterpreted as the start of the next event
+/// when its value is malformed (`EMAPPEND .. EXPECTED_VERSION bogus`).
+const CLAUSE_KEYWORDS: &[&str] = &[
+    "EVENT_ID",
+    "PARTITION_KEY",
+    "EXPECTED_VERSION",
+    "TIMESTAMP",
+    "PAYLOAD",
+    "METADATA",
+    "COUNT",
+    "FROM",
+    "WINDOW",
+];
+
+pub fn is_clause_keyword(s: &str) -> bool {
+    CLAUSE_KEYWORDS.iter().any(|kw| s.eq_ignore_ascii_case(kw))
+}
+
+fn positional_str<'a>(frame: &'a BytesFrame) -> Option<&'a str> {
+    match frame {
+        BytesFrame::BlobString { data, .. }
+        | BytesFrame::SimpleString { data, .. }
+        | BytesFrame::VerbatimString {
+            data,
+            format: VerbatimStringFormat::Text,
+            ..
+        } => str::from_utf8(data).ok().filter(|s| !is_clause_keyword(s)),
+        _ => None,
+    }
+}
+
 pub fn stream_id<'a>() -> impl Parser<FrameStream<'a>, Output = StreamId> + 'a {
-    string()
+    // A clause keyword is refused without consuming it, so a repetition of stream ids
+    // ends cleanly where the next clause begins.
+    satisfy_map(positional_str)
         .and_then(|s| StreamId::new(s).map_err(easy::Error::message_format))
         .expected("stream id")
+}
+
+pub fn event_name<'a>() -> impl Parser<FrameStream<'a>, Output = &'a str> + 'a {
+    satisfy_map(positional_str).expected("event name")
 }
 
 #[cfg(test)]
